@@ -247,6 +247,19 @@ AllOrders(v) ==
 
 ParseTrees(v) == IF D("D11_parse_key_order") THEN AllOrders(v) ELSE {v}
 
+(* the same relation as a predicate (no enumeration): equal up to the order  *)
+(* of the members of every object (names are unique in a parse result)       *)
+RECURSIVE EqModOrder(_, _)
+EqModOrder(a, b) ==
+    IF a.t # b.t THEN FALSE
+    ELSE IF a.t = "arr" THEN /\ Len(a.items) = Len(b.items)
+                             /\ \A i \in 1..Len(a.items) : EqModOrder(a.items[i], b.items[i])
+    ELSE IF a.t = "obj" THEN /\ Len(a.members) = Len(b.members)
+                             /\ \A i \in 1..Len(a.members) :
+                                    LET j == MemIdx(b.members, a.members[i].key)
+                                    IN  j # 0 /\ EqModOrder(a.members[i].val, b.members[j].val)
+    ELSE a = b
+
 -----------------------------------------------------------------------------
 (* 15.12.2 Walk.  The reviver is a script rv; its calls are logged with the  *)
 (* key, a snapshot of the value and a snapshot of the holder (this).         *)
@@ -346,6 +359,11 @@ ParseOutcomes(text, rv) ==
     LET p == ParseText(text)
     IN  IF ~p.ok THEN {POutcome("SyntaxError", Undef, <<>>)}
         ELSE {ReviveTree(t, rv) : t \in ParseTrees(p.v)}
+
+(* does the specification permit `back` as the result of JSON.parse(text)?   *)
+ParsePermits(text, back) ==
+    LET p == ParseText(text)
+    IN  p.ok /\ (IF D("D11_parse_key_order") THEN EqModOrder(p.v, back) ELSE p.v = back)
 
 -----------------------------------------------------------------------------
 (* 15.12.3 stringify                                                         *)
